@@ -241,3 +241,62 @@ package syntax
 //@     invariant hasContent == (p.currentPos > old(p.currentPos))
 //@     invariant forall k int :: old(p.currentPos) <= k && k < p.currentPos ==> HexVal(p.pattern[k]) >= 0
 //@     decreases len(p.pattern) - p.currentPos
+
+// ---------------------------------------------------------------------------------------------
+// C16: mutators and normalisation as set algebra (charclass.go)
+// ---------------------------------------------------------------------------------------------
+
+// The set a class denotes before negation: what the parser accumulates into with the add* functions.
+//@ spec func Inner(c CharSet, ch rune) bool = InRanges(c.ranges, ch) || (len(c.categories) > 0 && InCats(c.categories, ch))
+//@ spec func ValidRune(ch rune) bool = 0 <= ch && ch <= 1114111
+//@ spec func RangesValid(rs []SingleRange) bool = forall i int :: 0 <= i && i < len(rs) ==> 0 <= rs[i].First && rs[i].First <= rs[i].Last
+//@ spec func CatsKnown(cats []Category) bool = forall i int :: 0 <= i && i < len(cats) ==> CatKnown(cats[i].Cat)
+
+// sort.Sort on the range sorter: a permutation ordered by First (trusted library contract, specific to singleRangeSorter)
+//@ lib func sort.Sort(data []SingleRange)
+//@   modifies data[*]
+//@   ensures forall i int, j int :: 0 <= i && i < j && j < len(data) ==> data[i].First <= data[j].First
+//@   ensures forall i int :: 0 <= i && i < len(data) ==> exists j int :: 0 <= j && j < len(data) && data[i].First == old(data[j].First) && data[i].Last == old(data[j].Last)
+//@   ensures forall j int :: 0 <= j && j < len(data) ==> exists i int :: 0 <= i && i < len(data) && data[i].First == old(data[j].First) && data[i].Last == old(data[j].Last)
+
+// canonicalize: same members, ranges sorted and separated. (Body: see the second contract block; the rewrites that
+// introduce negation are membership preserving here - the defect is that the add* functions call it mid-construction.)
+//@ func (c *CharSet) canonicalize()
+//@   props C16
+//@   trusted merge loop and rewrites not yet verified; contract used by the add* functions
+//@   requires c != nil && RangesValid(c.ranges) && CatsKnown(c.categories)
+//@   modifies c.ranges, c.negate, c.anything, c.categories, elems(SingleRange)
+//@   ensures[member] forall ch rune :: ValidRune(ch) ==> Member(*c, ch) == old(Member(*c, ch))
+//@   ensures[sorted] RangesSorted(c.ranges) && RangesValid(c.ranges) && CatsKnown(c.categories) && c.sub == old(c.sub)
+
+// The add* functions accumulate into the inner set and must leave the sense of the class (negate) alone: the parser
+// sets negate once, for [^...], before adding anything.
+//@ func (c *CharSet) addRange(chMin rune, chMax rune)
+//@   props C16
+//@   requires c != nil && RangesValid(c.ranges) && CatsKnown(c.categories) && 0 <= chMin && chMin <= chMax
+//@   modifies c.ranges, c.negate, c.anything, c.categories, elems(SingleRange)
+//@   ensures[negate-kept] c.negate == old(c.negate)
+//@   ensures[union-pos] !old(c.negate) ==> forall ch rune :: ValidRune(ch) ==> Member(*c, ch) == ((old(BaseMember(*c, ch)) || (chMin <= ch && ch <= chMax)) && !(c.sub != nil && MemberP(c.sub, ch)))
+//@   ensures[union-neg] old(c.negate) ==> forall ch rune :: ValidRune(ch) ==> Member(*c, ch) == (old(BaseMember(*c, ch)) && !(chMin <= ch && ch <= chMax) && !(c.sub != nil && MemberP(c.sub, ch)))
+
+//@ func (c *CharSet) addRanges(ranges []SingleRange)
+//@   props C16
+//@   requires c != nil && RangesValid(c.ranges) && CatsKnown(c.categories) && RangesValid(ranges)
+//@   modifies c.ranges, c.negate, c.anything, c.categories, elems(SingleRange)
+//@   ensures[negate-kept] c.negate == old(c.negate)
+//@   ensures[union-pos] !old(c.negate) && !old(c.anything) ==> forall ch rune :: ValidRune(ch) ==> Member(*c, ch) == ((old(BaseMember(*c, ch)) || old(InRanges(ranges, ch))) && !(c.sub != nil && MemberP(c.sub, ch)))
+//@   ensures[anything] old(c.anything) ==> c.ranges == old(c.ranges) && c.negate == old(c.negate)
+
+//@ func (c *CharSet) makeAnything()
+//@   props C16
+//@   requires c != nil
+//@   modifies c.anything, c.categories, c.ranges
+//@   ensures c.anything && len(c.categories) == 0 && len(c.ranges) == 1 && c.ranges[0].First == 0 && c.ranges[0].Last == 1114111 && fresh(c.ranges) && c.negate == old(c.negate) && c.sub == old(c.sub)
+//@   ensures[everything] forall ch rune :: ValidRune(ch) ==> Inner(*c, ch)
+
+//@ func (c *CharSet) addSubtraction(sub *CharSet)
+//@   props C16
+//@   requires c != nil
+//@   modifies c.sub
+//@   ensures c.sub == sub
+//@   ensures[meaning] forall ch rune :: Member(*c, ch) == (old(BaseMember(*c, ch)) && !(sub != nil && MemberP(sub, ch)))
